@@ -181,8 +181,8 @@ def rule_structure(ctx) -> None:
     st = [norm(s) for s in A.body_of(fn.node)]
     chk.decide(st == ["image.offset = len(self)", "self.add_image(image)"], "C16.add-image", fn.qual, "appended at the current end", f"{st}", "", A.loc(IMG, fn.node))
     fn = ctx.own(IMG, "BinaryImage", "absolute_address")
-    rets = [norm(r.value) for r in A.returns_in(fn.node)]
-    chk.decide(rets == ["self.parent.absolute_address + self.offset", "self.offset"], "C16.absolute-address", fn.qual, "parent's absolute address + own offset", f"{rets}", "", A.loc(IMG, fn.node))
+    rets = sorted((q.assumes("self.parent", True), norm(q.last.value) if q.end == "return" and q.last.value is not None else q.end) for q in A.gpaths(fn.node))
+    chk.decide(rets == [(False, "self.offset"), (True, "self.parent.absolute_address + self.offset")], "C16.absolute-address", fn.qual, "parent's absolute address + own offset; own offset without a parent", f"{rets}", "", A.loc(IMG, fn.node))
     fn = ctx.own(IMG, "BinaryImage", "update_offsets")
     st = [norm(s) for s in ast.walk(fn.node) if isinstance(s, ast.AugAssign)]
     mo = A.inline_locals(fn.node, ast.parse("min_offset", mode="eval").body)
